@@ -191,10 +191,13 @@ pub mod blocks {
         let h = &hb.0[..hlen];
         match shiftor::Finder::new(n) {
             None => {
+                // unsupported inputs are reported by None; the documented
+                // domain (needles up to 15 bytes) must be supported
                 assert!(nlen > 15, "oracle: Shift-Or rejected a needle of <= 15 bytes");
             }
             Some(f) => {
-                assert!(nlen <= 15, "oracle: Shift-Or accepted a needle of > 15 bytes");
+                // a finder that is returned must answer correctly, whatever
+                // the needle length (accepting longer needles is allowed)
                 let r = f.find(h);
                 check_leftmost(h, n, r);
                 kani::cover!(matches!(r, Some(i) if i > 0) && nlen == 3, "occurrence");
